@@ -2,6 +2,7 @@ mod engine;
 mod jsonx;
 mod model;
 mod props;
+mod sha256;
 
 use engine::*;
 use std::path::PathBuf;
@@ -15,6 +16,13 @@ macro_rules! dispatch {
     ($id:expr, $f:ident, $($arg:expr),*) => {
         match $id {
             "C01" => $f(props::c01::C01, $($arg),*),
+            "C02" => $f(props::c02::C02, $($arg),*),
+            "C03" => $f(props::c03::C03, $($arg),*),
+            "C06" => $f(props::c06::C06, $($arg),*),
+            "C07" => $f(props::c07::C07, $($arg),*),
+            "C08" => $f(props::c08::C08, $($arg),*),
+            "C19" => $f(props::c19::C19, $($arg),*),
+            "C20" => $f(props::c20::C20, $($arg),*),
             _ => { eprintln!("unknown property {}", $id); std::process::exit(2) }
         }
     };
@@ -124,6 +132,12 @@ fn main() {
             let id = a[2].as_str();
             let rc = dispatch!(id, do_run, &args, also);
             std::process::exit(rc);
+        }
+        "isolated" => {
+            if a.len() < 4 {
+                usage();
+            }
+            std::process::exit(props::c03::isolated_main(std::path::Path::new(&a[3])));
         }
         "replay" => {
             if a.len() < 4 {
